@@ -409,7 +409,7 @@ func init() {
 		return res
 	})
 	check.RegisterProp("C18", func(tier string) []check.Job {
-		depth, sh := 6, 12
+		depth, sh := 7, 16
 		if tier == "thorough" {
 			depth, sh = 8, 16
 		}
